@@ -286,6 +286,10 @@ def rules():
     ok += [(['--name=' + S(0), '-g', '--numb', S(1)], ['s2', 'd2'], ['s=$0', 'n=#1', 'g=1']), (['--verb', '-q'], [], ['f=1', 'q=1']), (['-q', '-g'], [], ['q=1', 'g=1']), (['-n', S(0)], ['d2'], ['n=#0', 's=_'])]
     bad = [(['-s', S(0)], ['s2'], []), (['--nam', S(0), '-g'], ['s2'], [])] + [(['-q', sp], [], []) for sp in ('-v', '--verbose', '--verb', '--ve')] + [(['--qui', '-g', '--verbo'], [], []), (['-qv'], [], [])]
     fam.append((21, ok, bad))
+    # cfg 22: two arguments require the same argument, one names it by its short, the other by its long key
+    ok = [(['-a', '-b', '-x'], [], ['a=1', 'b=1', 'x=1']), (['-b', '-a', '--extra'], [], ['a=1', 'b=1', 'x=1']), (['-a', '-x'], [], ['a=1', 'x=1']), (['-b', '--ext', '-g'], [], ['b=1', 'x=1', 'g=1']), (['-x'], [], ['x=1']), (['-g'], [], ['g=1'])]
+    bad = [(['-a', '-b'], [], []), (['-a'], [], []), (['-b', '-g'], [], []), (['-x', '-a'], [], [])]
+    fam.append((22, ok, bad))
     # cfg 4: one_of(a;b)
     ok = [(['-a'], [], ['a=1']), (['-b'], [], ['b=1']), (['-n', S(0), '-b'], ['d2'], ['b=1', 'n=#0']), (['-a', '--number=' + S(0)], ['d2'], ['a=1', 'n=#0'])]
     bad = [([], [], []), (['-n', S(0)], ['d2'], []), (['-a', '-b'], [], []), (['-b', '-n', S(0), '-a'], ['d2'], [])]
@@ -310,6 +314,8 @@ def c02_shapes(tier):
         shapes.append(('hx_pa', [6, 32 << 8], lab('c02/cfg6 multi-value', words), {'pa_tmpl': tmpl('throw', [], slots, words)}))
     for words, slots in ((['-b', S(0) + ',-' + S(1)], ['r1:0:7', 'r1:1:9']), (['--bits=-' + S(0)], ['r1:1:9']), (['-b-' + S(0)], ['r1:1:9']), (['-b', S(0)], ['r2:10:99']), (['-b', '18446744073709551615'], []), (['-b', '4294967296'], [])):
         shapes.append(('hx_pa', [6, 0], lab('c02/bitset position', words), {'pa_tmpl': tmpl('throw', [], slots, words)}))
+    for words in (['-f'], ['-y', S(0)]):
+        shapes.append(('hx_pa', [6, 65536 << 8], lab('c02/mandatory array missing', words), {'pa_tmpl': tmpl('throw', [], ['d1'], words)}))
     # a mandatory argument that opens a sub-group: missing -> reported, present -> fine
     for m in (0, 2):
         shapes.append(('hx_pa_subgroup', [m, 7], 'c02/subgroup/mandatory%d/missing' % (m >> 1)))
@@ -353,6 +359,9 @@ def c03_shapes(tier):
     for key, item in (('y', 'sa'), ('a', 'arr'), ('t', 'st')):
         for words in (['-' + key, S(0) + ',' + S(1) + ',' + S(2)], ['--' + {'y': 'stdarr', 'a': 'arr', 't': 'set'}[key] + '=' + S(0) + ',' + S(1), '-' + key, S(2)]):
             shapes.append(('hx_pa', [6, 1024 << 8], lab('c03/checked elements', words), {'pa_tmpl': tmpl('ok', ['%s=#0,#1,#2' % item], ['r2:10:39', 'r2:40:69', 'r2:70:99'], words)}))
+    # a mandatory C array may be filled partly
+    for words, slots, items in ((['-a', S(0) + ',' + S(1)], ['d1', 'd2'], ['arr=#0,#1,0']), (['--arr=' + S(0), '-f'], ['d2'], ['arr=#0,0,0', 'f=1']), (['-a', S(0), '-a', S(1), '-a', S(2)], ['d1', 'd1', 'd1'], ['arr=#0,#1,#2'])):
+        shapes.append(('hx_pa', [6, 65536 << 8], lab('c03/mandatory array', words), {'pa_tmpl': tmpl('ok', items, slots, words)}))
     # full keys with abbreviations disabled
     for words, slots, items in ((['--number', S(0), '--flag'], ['d2'], ['n=#0', 'f=1']), (['--name=' + S(0)], ['s3'], ['s=$0'])):
         shapes.append(('hx_pa', [0, 1], lab('c03/noabbr', words), {'pa_tmpl': tmpl('ok', items, slots, words)}))
@@ -699,6 +708,9 @@ def c08_shapes(tier):
             shapes.append((entry, [6, opt << 8], lab('c08/%s/cfg6' % entry, words), {'pa_tmpl': tmpl(exp, items, slots, words)}))
     for words, slots, exp, items in ((['-l', S(0), S(1), '-f', S(2)], ['d1', 'd2', 'd3'], 'ok', ['v=#0,#1', 'f=1', 'fv=#2']), (['-l', S(0), '-s', S(1)], ['d2', 's2'], 'throw', []), (['-n', S(0), '-l', S(1), S(2)], ['d2', 'd1', 'd1'], 'ok', ['n=#0', 'v=#1,#2'])):
         shapes.append(('hx_pa_group', [10, 0], lab('c08/cfg10', words), {'pa_tmpl': tmpl(exp, items, slots, words)}))
+    # a free value directly behind an argument of the other member handler
+    for words, slots, items in ((['-s', S(0), S(1)], ['s2', 'd2'], ['s=$0', 'fv=#1']), (['-l', S(0), '-n', S(1), S(2)], ['d2', 'd2', 'd2'], ['v=#0', 'n=#1', 'fv=#2']), (['--name=' + S(0), S(1), '-f'], ['s2', 'd2'], ['s=$0', 'fv=#1', 'f=1'])):
+        shapes.append(('hx_pa_group', [10, 0], lab('c08/cfg10 free value', words), {'pa_tmpl': tmpl('ok', items, slots, words)}))
     for m in (3, 4, 5):
         shapes.append(('hx_pa_group_dup', [m, 0], 'c08/duplicate key, later-created handler defines it first (%d)' % m))
     for a in range(3):
@@ -708,7 +720,7 @@ def c08_shapes(tier):
     for gmode in (1, 2, 4, 5, 6):
         for a, b in ((0, 0), (1, 1), (2, 3), (2, 4), (0, 5), (2, 7), (1, 8), (0, 9)):
             shapes.append(('hx_pa_group_keys', [a, b, gmode], 'c08/key forms/%d-%d/group mode %d' % (a, b, gmode)))
-    for m in (0, 1, 2, 3, 4, 8, 9, 10, 11, 12):
+    for m in (0, 1, 2, 3, 4, 5, 8, 9, 10, 11, 12, 13):
         shapes.append(('hx_pa_group_subkey', [m, 0], 'c08/sub-group key in another member handler/%d' % m))
     shapes.append(('hx_pa_group_dup', [0, 0], 'c08/duplicate key short'))
     shapes.append(('hx_pa_group_dup', [1, 0], 'c08/duplicate key long'))
@@ -732,6 +744,8 @@ def c18_shapes(tier):
     for bflags in range(8):
         shapes.append(('hx_usage_extras', [bflags, 0], 'c18/usage-extras/b%d' % bflags))
     shapes.append(('hx_usage_nodesc', [0, 0], 'c18/usage-empty-description'))
+    for sd in (0, 1):
+        shapes.append(('hx_usage_positional', [sd, 0], 'c18/usage-positional/deprecated%d' % sd))
     for base in ((72,) if tier == 'quick' else (60, 72, 90)):
         shapes.append(('hx_usage_layout2', [base, 0], 'c18/usage-layout-second-print/len%d' % base))
     # the usage printed a second time with other display settings
